@@ -123,7 +123,7 @@ def _check_close_events(events, table, lpath):
         return ("os.replace() runs before the temporary file is closed (inside the with-block): the rename can publish a file whose content is still in Python's "
                 "buffer, so a kill or a failing flush leaves an empty/truncated state file")
     if not (tmp.startswith(lpath) or tmp.rsplit("/", 1)[0] == lpath.rsplit("/", 1)[0]):
-        return f"the temporary file `{tmp}` is not in the directory of `{lpath}` (rename across file systems is not atomic)"
+        return f"the temporary file `{tmp}` is not in the directory of `{lpath}` (os.replace across file systems fails with EXDEV - e.g. $TMPDIR on node-local scratch, the project on NFS - so nothing this command recorded is ever saved)"
     return None
 
 
